@@ -601,9 +601,17 @@ impl<'a> IrEmitter<'a> {
                         .iter()
                         .map(|s| self.emit_stmt(s))
                         .collect::<Result<_, _>>()?;
+                    // The body refers to the right-hand operand by the name the user gave it.
+                    let other = match method.params.iter().find(|p| !p.is_self) {
+                        Some(p) => {
+                            let pname = format_ident!("{}", Self::escape_keyword(&p.name));
+                            quote! { #pname }
+                        }
+                        None => quote! { other },
+                    };
                     trait_impls.push(quote! {
                         impl PartialEq for #target_type {
-                            fn eq(&self, other: &Self) -> bool {
+                            fn eq(&self, #other: &Self) -> bool {
                                 #(#body_stmts)*
                             }
                         }
